@@ -722,10 +722,10 @@ impl<'a, T: 'a + IO> Interpreter<'a, T> {
     fn interpret_if_stmt(&mut self, expr: parser::Expr) -> Result<(), PakhiErr> {
         let (line, file_name) = self.extract_expr_err_meta(&expr);
 
+        let if_condition_expr = self.interpret_expr(expr)?;
+
         // consuming if token
         self.current += 1;
-
-        let if_condition_expr = self.interpret_expr(expr)?;
 
         if let DataType::Bool(condition) = if_condition_expr {
             if condition == false {
